@@ -70,7 +70,8 @@ def _case(draw):
                 args=args, sig_defaults=(draw(st.sampled_from([None, None, "all", "one_required"])) if nargs >= 1 else draw(st.sampled_from([None, None, "all"]))),
                 t0=t0, tf=tf, t_eval=t_eval, te_kind=te_kind,
                 max_step=draw(st.sampled_from([None, None, 0.05, 0.2, 10.0])), first_step=draw(st.sampled_from([None, 0.1, 0.01, 5.0])),
-                tol=tol, dense=draw(st.booleans()), event=draw(st.sampled_from([None, None, "time", "terminal"])))
+                tol=tol, dense=draw(st.booleans()), event=draw(st.sampled_from([None, None, "time", "terminal"])),
+                rhs_kind=draw(st.sampled_from(["function", "function", "bound", "callable"])))
 
 
 def parts(tier):
@@ -98,31 +99,30 @@ def _make_rhs(case, baked):
                 return core(t, y, *vals)
             return f
 
-        def f(t, y, p1=1.5, p2=0.25, p3=2.0):
-            return core(t, y, p1, p2, p3)
-        if case["sig_defaults"] == "one_required":
-            def f(t, y, p1, p2=0.25, p3=2.0):       # noqa: F811
-                return core(t, y, p1, p2, p3)
-        return f
+        params = ["p1=1.5", "p2=0.25", "p3=2.0"] if case["sig_defaults"] != "one_required" else ["p1", "p2=0.25", "p3=2.0"]
+        return _build(core, params, [], case.get("rhs_kind") or "function")
     if baked:
         vals = args + defaults[len(args):]
 
         def f(t, y):
             return core(t, y, *vals)
         return f
-    if len(args) == 0:
-        def f(t, y):
-            return core(t, y, 1.0, 1.0, 1.0)
-    elif len(args) == 1:
-        def f(t, y, p1):
-            return core(t, y, p1, 1.0, 1.0)
-    elif len(args) == 2:
-        def f(t, y, p1, p2):
-            return core(t, y, p1, p2, 1.0)
+    return _build(core, ["p{}".format(i + 1) for i in range(len(args))], ["1.0"] * (3 - len(args)), case.get("rhs_kind") or "function")
+
+
+def _build(core, params, fill, kind):
+    """The right-hand side with the given parameter list as a plain function, a bound method or an object with __call__."""
+    sig = ", ".join(["t", "y"] + params)
+    call = ", ".join(["t", "y"] + [q.split("=")[0] for q in params] + fill)
+    ns = {"core": core}
+    if kind == "bound":
+        src = "class H:\n    def m(self, {}):\n        return core({})\nout = H().m".format(sig, call)
+    elif kind == "callable":
+        src = "class H:\n    def __call__(self, {}):\n        return core({})\nout = H()".format(sig, call)
     else:
-        def f(t, y, p1, p2, p3):
-            return core(t, y, p1, p2, p3)
-    return f
+        src = "def out({}):\n    return core({})".format(sig, call)
+    exec(src, ns)
+    return ns["out"]
 
 
 def _method(case):
@@ -162,7 +162,7 @@ def check(case):
     mname = meth if isinstance(meth, str) else meth.__name__
     attrs = dict(method=mname, te_kind=case["te_kind"])
     labels = ["method_by:" + ("class" if not isinstance(meth, str) else "name"), "t_eval:" + case["te_kind"], "shape:{}d".format(len(shape)),
-              "args:{}".format(len(case["args"])), "backward" if case["tf"] < case["t0"] else "forward"]
+              "args:{}".format(len(case["args"])), "rhs_kind:" + (case.get("rhs_kind") or "function"), "backward" if case["tf"] < case["t0"] else "forward"]
     sig = case["te_kind"]
     viols = []
     try:
